@@ -281,7 +281,7 @@ end
 
 /-- What `descOf` can return: a stand-alone alternative, or a compound made of entries. -/
 def Desc.Shape (d : Desc) : Prop :=
-  d.isAlt = true ∨ ∃ ds, d = .complex ds ∧ ∀ x ∈ ds, x.isEntry = true
+  d.isAlt = true ∨ ∃ ds, d = .complex ds ∧ (∀ x ∈ ds, x.isEntry = true) ∧ ds ≠ []
 
 theorem Desc.isEntry_of_isAlt (d : Desc) (h : d.isAlt = true) : d.isEntry = true := by
   cases d <;> simp_all [Desc.isAlt, Desc.isEntry]
@@ -361,7 +361,7 @@ theorem agreeQ_cons (t : TraitType) (ts : List TraitType) (hP : AgreeP E t) (hQ 
     · cases hd : descOf E t with
       | none => simp [hd] at hx
       | some d =>
-        rcases hshape d hd with ha | ⟨ds, rfl, hds⟩
+        rcases hshape d hd with ha | ⟨ds, rfl, hds, _⟩
         · have : x = d := by
             cases d <;> simp [Desc.isAlt] at ha <;> simpa [hd] using hx
           exact this ▸ Desc.isEntry_of_isAlt d ha
@@ -388,7 +388,7 @@ theorem agreeQ_cons (t : TraitType) (ts : List TraitType) (hP : AgreeP E t) (hQ 
       have hhead : ∀ e, pyValidate E t v ≠ .raised e := by
         intro e he; exact hr e (by rw [hsel, he])
       have hfa := hagree d v hd hc.1 hv hhead
-      rcases hshape d hd with ha | ⟨ds, rfl, hds⟩
+      rcases hshape d hd with ha | ⟨ds, rfl, hds, _⟩
       · have hflat : flatFast E (t :: ts) = d :: flatFast E ts := by
           cases d <;> simp [Desc.isAlt] at ha <;> simp [flatFast, hd]
         rw [hflat, hsel, List.cons_append]
@@ -469,12 +469,16 @@ theorem agreeP_either (alts : List TraitType) (wn : Bool) (hQ : AgreeQ E alts) :
     · by_cases ha : anySlow E alts = true <;> simp [ha] at h; subst h; rfl
   constructor
   · intro d hd
-    obtain ⟨_, rfl⟩ := hdesc d hd
-    refine Or.inr ⟨_, rfl, ?_⟩
-    intro x hx
-    rcases List.mem_append.mp hx with h | h
-    · exact hent x h
-    · exact hentry x h
+    obtain ⟨hne, rfl⟩ := hdesc d hd
+    refine Or.inr ⟨_, rfl, ?_, ?_⟩
+    · intro x hx
+      rcases List.mem_append.mp hx with h | h
+      · exact hent x h
+      · exact hentry x h
+    · intro h0
+      apply hne
+      rw [← List.append_assoc] at h0
+      exact (List.append_eq_nil_iff.mp h0).1
   · intro d v hd hc hv hr
     obtain ⟨_, rfl⟩ := hdesc d hd
     simp only [TraitType.clean] at hc
@@ -493,7 +497,7 @@ theorem agreeP_either (alts : List TraitType) (wn : Bool) (hQ : AgreeQ E alts) :
 theorem agreeP_compoundH (hs : List TraitType) (hQ : AgreeQ E hs) : AgreeP E (.compoundH hs) := by
   obtain ⟨hent, hmain⟩ := hQ
   have hdesc : ∀ d, descOf E (.compoundH hs) = some d →
-      d = .complex (flatFast E hs ++
+      flatFast E hs ≠ [] ∧ d = .complex (flatFast E hs ++
         (if anySlow E hs then [Desc.slow (fun v => pySel E false hs v)] else [])) := by
     intro d hd
     simp only [descOf] at hd
@@ -502,21 +506,23 @@ theorem agreeP_compoundH (hs : List TraitType) (hQ : AgreeQ E hs) : AgreeP E (.c
     | cons x xs =>
       simp only [hf] at hd
       simp only [Option.some.injEq] at hd
-      rw [← hd]
+      exact ⟨by simp, by rw [← hd]⟩
   have hentry : ∀ x ∈ (if anySlow E hs then [Desc.slow (fun v => pySel E false hs v)] else []),
       x.isEntry = true := by
     intro x h
     by_cases ha : anySlow E hs = true <;> simp [ha] at h; subst h; rfl
   constructor
   · intro d hd
-    rw [hdesc d hd]
-    refine Or.inr ⟨_, rfl, ?_⟩
-    intro x hx
-    rcases List.mem_append.mp hx with h | h
-    · exact hent x h
-    · exact hentry x h
+    rw [(hdesc d hd).2]
+    refine Or.inr ⟨_, rfl, ?_, ?_⟩
+    · intro x hx
+      rcases List.mem_append.mp hx with h | h
+      · exact hent x h
+      · exact hentry x h
+    · intro h0
+      exact (hdesc d hd).1 (List.append_eq_nil_iff.mp h0).1
   · intro d v hd hc hv hr
-    rw [hdesc d hd]
+    rw [(hdesc d hd).2]
     simp only [TraitType.clean] at hc
     simp only [pyValidate] at hr ⊢
     have hr1 : ∀ e, pySel E true hs v ≠ .raised e := by
